@@ -47,6 +47,12 @@ struct Cm<T: Num> {
     seeds: Vec<u64>,
 }
 
+impl<T: Num> Clone for Cm<T> {
+    fn clone(&self) -> Self {
+        Cm { sk: self.sk.clone(), seeds: self.seeds.clone() }
+    }
+}
+
 fn chk<T: Num>(out: &mut Shards, id: usize, c: &Cm<T>, items: &[u64], d: u8, w: u32) {
     // a panic of a query is an event of the trace, not a failure of the recorder
     let r = catch(std::panic::AssertUnwindSafe(|| chk_inner(id, c, items, d, w)));
@@ -402,6 +408,60 @@ fn edge_scaling<T: Num + UnsignedCountMinValue>(out: &mut Shards, tname: &str, m
     }
 }
 
+/// merges whose receiver holds nothing: fresh, decoded from an empty image, or scaled down to nothing; and
+/// merges of an empty argument. The receiver must take over table and total like any other merge.
+fn merge_into_empty<T: Num + UnsignedCountMinValue>(out: &mut Shards, tname: &str) {
+    let r = catch(std::panic::AssertUnwindSafe(|| {
+        out.next_run(&format!("cm-merge-empty-{tname}"));
+        let (d, w, seed) = (3u8, 7u32, 9001u64);
+        let seeds = row_seeds(seed, d);
+        let mk = || Cm::<T> { sk: CountMinSketch::<T>::with_seed(d, w, seed), seeds: seeds.clone() };
+        let items = [3u64, 4, 5, 6, 99];
+        let upd = |c: &mut Cm<T>, out: &mut Shards, id: usize, it: u64, wt: u64| {
+            c.sk.update_with_weight(it, T::of(wt));
+            out.ev(json!({"op":"CUpd","id":id,"x":it,"b":buckets(it, &seeds, w),"wt":wt,"est":c.sk.estimate(it).val(),"tot":c.sk.total_weight().val()}));
+        };
+        let merge = |a: &mut Cm<T>, b: &Cm<T>, out: &mut Shards, ia: usize, ib: usize| {
+            let other = b.sk.clone();
+            a.sk.merge(&other);
+            out.ev(json!({"op":"CMerge","id":ia,"src":ib,"tot":a.sk.total_weight().val()}));
+        };
+        let mut cs: Vec<Cm<T>> = (0..5).map(|_| mk()).collect();
+        for id in 0..5 {
+            out.ev(json!({"op":"CNew","id":id,"d":d,"w":w}));
+        }
+        upd(&mut cs[1], out, 1, 3, 4);
+        upd(&mut cs[1], out, 1, 4, 2);
+        upd(&mut cs[2], out, 2, 5, 3);
+        upd(&mut cs[2], out, 2, 3, 1);
+        // fresh receiver, then a second merge into it, then an empty argument
+        let (b1, b2, e4) = (cs[1].clone(), cs[2].clone(), cs[4].clone());
+        merge(&mut cs[0], &b1, out, 0, 1);
+        chk(out, 0, &cs[0], &items, d, w);
+        merge(&mut cs[0], &b2, out, 0, 2);
+        chk(out, 0, &cs[0], &items, d, w);
+        merge(&mut cs[0], &e4, out, 0, 4);
+        chk(out, 0, &cs[0], &items, d, w);
+        // receiver scaled down to nothing
+        upd(&mut cs[3], out, 3, 6, 1);
+        cs[3].sk.halve();
+        out.ev(json!({"op":"CHalve","id":3,"tot":cs[3].sk.total_weight().val()}));
+        merge(&mut cs[3], &b1, out, 3, 1);
+        chk(out, 3, &cs[3], &items, d, w);
+        merge(&mut cs[3], &b2, out, 3, 2);
+        chk(out, 3, &cs[3], &items, d, w);
+        // empty receiver and empty argument
+        let e = cs[4].clone();
+        merge(&mut cs[4], &e, out, 4, 4);
+        chk(out, 4, &cs[4], &items, d, w);
+        merge(&mut cs[4], &b2, out, 4, 2);
+        chk(out, 4, &cs[4], &items, d, w);
+    }));
+    if let Err(e) = r {
+        out.ev(json!({"op":"Panic","in":"scenario","key":e.split(": ").next().unwrap_or(""),"msg":e}));
+    }
+}
+
 /// the same for the 64-bit types, on limbs
 fn saturate_wide<T: WideNum>(out: &mut Shards, tname: &str) {
     let r = catch(std::panic::AssertUnwindSafe(|| {
@@ -502,6 +562,9 @@ pub fn record(args: &Args) {
     edge_scaling::<u8>(&mut out, "u8", u8::MAX as u64);
     edge_scaling::<u16>(&mut out, "u16", u16::MAX as u64);
     edge_scaling::<u32>(&mut out, "u32", 1 << 30);
+    merge_into_empty::<u8>(&mut out, "u8");
+    merge_into_empty::<u32>(&mut out, "u32");
+    merge_into_empty::<u64>(&mut out, "u64");
     saturate_wide::<u64>(&mut out, "u64");
     saturate_wide::<i64>(&mut out, "i64");
     merge_refusals(&mut out);
